@@ -64,6 +64,7 @@ func OpenPoller() (poller *Poller, err error) {
 		poller = nil
 		return
 	}
+	vhook.Sys("p.open", poller, poller.fd, efd, nil)
 	poller.asyncTaskQueue = queue.NewLockFreeQueue()
 	poller.urgentAsyncTaskQueue = queue.NewLockFreeQueue()
 	poller.highPriorityEventsThreshold = MaxPollEventsCap
@@ -72,6 +73,7 @@ func OpenPoller() (poller *Poller, err error) {
 
 // Close closes the poller.
 func (p *Poller) Close() error {
+	vhook.Sys("p.close", p, p.fd, p.epa.FD, nil)
 	_ = unix.Close(p.epa.FD)
 	return os.NewSyscallError("close", unix.Close(p.fd))
 }
